@@ -206,3 +206,37 @@ func VP_C04_Refuse() {
 	vpAssert(err2 != nil && len(txt) == 0, "MarshalText refuses as well")
 	vpReach("end")
 }
+
+// VP_C04_IntField: one integer field over a range through the decimal printer
+// and parser, or one of a list of extreme values (concrete, so that any
+// detour through floating point is run on the host).
+func VP_C04_IntField() {
+	b := &BED{N: 12, Chrom: "c", ChromStart: 1, ChromEnd: 2, Name: "n", Score: 3, Strand: "+", ThickStart: 4, ThickEnd: 5, BlockCount: 1, BlockSizes: []int{6}, BlockStarts: []int{7}}
+	var v int
+	if k := vpCase("extreme"); k >= 0 {
+		v = []int{0, -1, 9223372036854775807, -9223372036854775808, 2147483648, -2147483649, 9007199254740993, -9007199254740993, 1000000000000000000}[k]
+	} else {
+		v = vpIntRange("v", vpCase("lo"), vpCase("hi"))
+	}
+	switch vpCase("field") {
+	case 0:
+		b.ChromStart = v
+	case 1:
+		b.ChromEnd = v
+	case 2:
+		b.Score = v
+	case 3:
+		b.ThickStart = v
+	case 4:
+		b.ThickEnd = v
+	case 5:
+		b.BlockSizes = []int{v}
+	case 6:
+		b.BlockStarts = []int{v}
+	}
+	var w vpBuf
+	vpAssert(b.Write(&w) == nil, "Write succeeds")
+	got := vpCollect(vpOneShot(w.b), 3)
+	vpAssert(len(got) == 1 && !got[0].err && vpSameBED(got[0].b, b), "any int value survives write -> read")
+	vpReach("end")
+}
